@@ -57,7 +57,9 @@ def handle (req : Json) : Json :=
       | none => err "malformed"
       | some cols =>
         if cols.any (fun c => c.vals.length != n) then err "malformed" else
-        let cfg := stdCfg S
+        let rp := field? req "repairs"
+        let cfg := stdCfg S (((rp.bind (field? · "wide")).bind getBool?).getD false)
+          (((rp.bind (field? · "sweep_first")).bind getBool?).getD false)
         let tab : List TCol := cols.map fun c => ⟨c.name, c.vals⟩
         let r : Rounding :=
           ⟨lookupRound (cols.filterMap fun c => c.objR.map fun x => (c.vals, x)),
